@@ -9,6 +9,15 @@ _SRV = (" Redis and RabbitMQ are in-process server models (harness/fredis.py, ha
 _WORKER = ("Generated worker scenarios run by a real repid Worker on a deterministic virtual-time event loop against an independent "
            "reference model; statistical coverage (no exhaustiveness claimed), sensitivity shown by the mutants in tools/mutant_table.py.")
 CHECKS = [
+ {"property_id": "C20", "level": "exploration", "design_ref": "DESIGN.md §4 C20",
+  "technique": "grammar-based and mutation fuzzing of the HTTP protocol object (Hypothesis; atheris/libFuzzer coverage-guided campaign in the thorough tier) plus socket-level stateful property-based testing on a real loop",
+  "text": "Protocol layer: generated and mutated byte strings in 1-5 chunks against a response-wellformedness / status oracle (tens of thousands "
+          "of inputs per quick run, millions of libFuzzer executions in the thorough run, seeded and empty corpus). Socket layer: a real "
+          "Worker with the health server on a loopback port; histories of probes, malformed sends, early-opened connections, concurrent "
+          "bursts, a consumer failure and jobs; oracle 200/503/404 as of the moment the request is sent, port open exactly while run() runs, "
+          "jobs undisturbed.",
+  "note": "Trusted base: Hypothesis, atheris 3.1 (bytecode instrumentation of the protocol methods), the oracle in harness/checks/c20.py. Socket "
+          "layer uses real time and loopback sockets; client-side timeouts are counted inconclusive."},
  {"property_id": "C01", "level": "fault_enumeration", "design_ref": "DESIGN.md §4 C01",
   "technique": "model-based stateful property-based testing of broker-API histories with step-indexed cancellation injection, 3 brokers",
   "text": "Generated histories (enqueue/start/consume/ack/nack/reject/requeue/finish/advance, any call cancellable after k loop steps) are "
